@@ -6,6 +6,7 @@ keeps the earlier one, a hit needs `relativePTTL > 0`; message.go's 7-byte field
 -/
 import Rv.Lemmas.LruPending
 import Rv.Lemmas.AdapterPending
+import Rv.Lemmas.CachePipe
 namespace Rv.C07
 open Rv.Lru
 open Rv.Spec.Cache (expiry)
@@ -186,6 +187,91 @@ theorem adapter_no_hit_at_or_after_expiry (s : Adapter.State) (k c : Bytes) (ttl
     · exact absurd h hmiss
   · exact absurd h hmiss
 
+/-! ### the reader loop's conversion of the server PTTL (`expiryOf`, used by `Rv.CachePipe`) -/
+
+/-- `serverRaw` is what `serverExpire` packs -/
+theorem serverExpire_eq (arrival pttl : Int) : serverExpire arrival pttl = pack (serverRaw arrival pttl) := by
+  unfold serverExpire serverRaw
+  split
+  · rfl
+  · simp [pack, setExpireAt, getExpireAt]
+
+/-- **Expiry of a cached read is the minimum, including the PTTL 0 boundary.** For a call started at `start` with
+    client TTL `ttl` whose reply arrives at `arrival` with server answer `pttl` (all expiries inside the 7-byte
+    range, the server expiry not exactly the epoch): `pttl < 0` (−1 no expiry, −2 no key) gives the client expiry;
+    `pttl ≥ 0` — zero included — gives the earlier of the client expiry and `arrival + pttl` ms. -/
+theorem expiryOf_is_min (start ttl arrival pttl : Int)
+    (hc0 : 0 ≤ unixMilli (start + ttl)) (hc1 : unixMilli (start + ttl) < 2 ^ 56) :
+    (pttl < 0 → expiryOf start ttl arrival pttl = unixMilli (start + ttl)) ∧
+    (0 ≤ pttl → 0 < unixMilli (arrival + pttl * 1000000) → unixMilli (arrival + pttl * 1000000) < 2 ^ 56 →
+      expiryOf start ttl arrival pttl = min (unixMilli (start + ttl)) (unixMilli (arrival + pttl * 1000000))) := by
+  have hpc := pack_roundtrip _ hc0 hc1
+  constructor
+  · intro h
+    have hz : pack 0 = 0 := by decide
+    simp only [expiryOf, serverRaw, show ¬ pttl ≥ 0 by omega, if_false, hpc, hz, chooseExp]
+    simp
+  · intro h h0 h1
+    have hps := pack_roundtrip _ (by omega) h1
+    simp only [expiryOf, serverRaw, show pttl ≥ 0 from h, if_true, hpc, hps, chooseExp]
+    split <;> omega
+
+/-- the same in whole milliseconds: the model's `expiryOf` is the specification's `expiryMs` -/
+theorem expiryOf_eq_spec (start ttl arrival pttl : Int)
+    (hc0 : 0 ≤ start + ttl) (hc1 : start + ttl < 2 ^ 56)
+    (hs : 0 ≤ pttl → 0 < arrival + pttl ∧ arrival + pttl < 2 ^ 56) :
+    expiryOf (start * 1000000) (ttl * 1000000) (arrival * 1000000) pttl = Spec.Cache.expiryMs start ttl arrival pttl := by
+  have e1 : unixMilli (start * 1000000 + ttl * 1000000) = start + ttl := by unfold unixMilli; omega
+  have e2 : unixMilli (arrival * 1000000 + pttl * 1000000) = arrival + pttl := by unfold unixMilli; omega
+  have := expiryOf_is_min (start * 1000000) (ttl * 1000000) (arrival * 1000000) pttl (by rw [e1]; exact hc0) (by rw [e1]; exact hc1)
+  unfold Spec.Cache.expiryMs
+  split
+  · rename_i h; rw [this.1 h, e1]
+  · rename_i h
+    have h : 0 ≤ pttl := by omega
+    rw [this.2 h (by rw [e2]; exact (hs h).1) (by rw [e2]; exact (hs h).2), e1, e2]
+
+/-- **PTTL 0**: the reply of a key in its last millisecond expires on arrival — it can never be served as a hit
+    by a lookup at or after its arrival. -/
+theorem expiryOf_pttl_zero (start ttl arrival : Int)
+    (hc0 : 0 ≤ unixMilli (start + ttl)) (hc1 : unixMilli (start + ttl) < 2 ^ 56)
+    (h0 : 0 < unixMilli arrival) (h1 : unixMilli arrival < 2 ^ 56) :
+    expiryOf start ttl arrival 0 ≤ unixMilli arrival ∧
+    ∀ now, arrival ≤ now → ¬ (relativePTTL (expiryOf start ttl arrival 0) (unixMilli now) > 0) := by
+  have := (expiryOf_is_min start ttl arrival 0 hc0 hc1).2 (Int.le_refl 0) (by simpa using h0) (by simpa using h1)
+  simp only [Int.zero_mul, Int.add_zero] at this
+  have hle : expiryOf start ttl arrival 0 ≤ unixMilli arrival := by rw [this]; omega
+  refine ⟨hle, ?_⟩
+  intro now hn
+  have : unixMilli arrival ≤ unixMilli now := by unfold unixMilli; omega
+  simp only [relativePTTL]; omega
+
+open Rv.CachePipe in
+/-- **Connection level.** When the reader loop, at clock `now`, handles the reply of the fetch of (k, c) whose
+    pending entry was created by a DoCache started at `t0` with TTL `ttl`, the reply is committed, and handed to
+    every waiter, with expiry `expiryOf t0 ttl now pttl`. -/
+theorem pipe_commits_expiryOf (st : St) (hi : Inv st.store) (k c : Bytes) (v : Nat) (vsz pttl : Int) (rest : List Msg)
+    (hq : st.respQ = .reply k c v vsz pttl :: rest) (e : Entry) (he : e ∈ st.store.list)
+    (hk : e.key = k) (hc : e.cmd = c) (hp : e.pend = true) (t0 ttl : Int)
+    (hexp : e.exp = pack (unixMilli (t0 + ttl))) (now : Int) :
+    (CachePipe.step st (.deliver now)).store.done = st.store.done ++ [(e.id, .val v (expiryOf t0 ttl now pttl))] := by
+  have hopen : st.store.closed = false := by
+    cases hcl : st.store.closed
+    · rfl
+    · have := hi.closedNil hcl; rw [this] at he; cases he
+  have hfind : find? st.store.list k c = some e := by
+    have := find?_of_mem hi.nodup he; rw [hk, hc] at this; exact this
+  simp only [CachePipe.step, hq, handle]
+  have u := update_cases st.store k c v vsz (serverRaw now pttl)
+  cases u with
+  | closed hc' hs hp' => rw [hc'] at hopen; cases hopen
+  | absent hc' hf hs hp' => rw [hf] at hfind; cases hfind
+  | fill e' hc' hf hpend hp' hl hsz hd hcl hmx hn =>
+    rw [hf] at hfind; cases hfind
+    rw [hd, hp', hexp]; rfl
+  | stale e' hc' hf hpend hp' hl hsz hd hcl hmx hn =>
+    rw [hf] at hfind; cases hfind; rw [hp] at hpend; cases hpend
+
 /-! ### CacheTTL / CachePTTL / CachePXAT report that same expiry -/
 
 /-- **The accessors report the stored expiry.** For a reply carrying expiry `exp ≠ 0`: `CachePXAT` is `exp`,
@@ -211,5 +297,7 @@ example : (flight (Lru.init 1000 336) [1] [2] 5000000000 1000000).2 = .send := b
 example : pack 1700000000000 = 1700000000000 := by decide
 example : expiry 100 (serverExpire 5000000 20) = 25 := by decide
 example : expiry 100 (serverExpire 5000000 (-1)) = 100 := by decide
+example : expiryOf 1000000000 2000000000 1003000000 0 = 1003 := by decide
+example : expiryOf 1000000000 2000000000 1003000000 (-1) = 3000 := by decide
 
 end Rv.C07
